@@ -18,6 +18,36 @@ def make_pool(seed, n):
         ops.append({'op': 'construct', 'index': idx})
     ops.append({'op': 'construct_props'})
     ops.append({'op': 'construct_header'})
+    # values that are == (and hash equal) but differ in type / scale / sign:
+    # a cache keyed by equality would confuse them
+    import decimal
+    Dm = decimal.Decimal
+    for group in ([True, 1, 1.0, Dm('1'), Dm('1.0')],
+                  [False, 0, 0.0, -0.0, Dm('0'), Dm('0.000'), Dm('-0')],
+                  [Dm('2.5'), Dm('2.50'), 2.5], [Dm('100'), Dm('1E+2'),
+                                                 Dm('100.00'), 100]):
+        for v in group:
+            ops.append({'op': 'encode_table', 'v': {'k': v, 'a': [v]}})
+    # deep values (nesting 24..32), encoded and decoded
+    for depth in (24, 28, 32):
+        deep = {'d': gv.deep_chain(rnd, depth - 1)}
+        ops.append({'op': 'encode_table', 'v': deep})
+        try:
+            wire_ = refcodec.enc_method(
+                refspec.BY_NAME['Connection.StartOk'].index,
+                {'client_properties': deep, 'mechanism': 'PLAIN',
+                 'response': '', 'locale': 'en_US'}, 1)
+            ops.append({'op': 'decode', 'data': wire_})
+        except refcodec.RefError:
+            pass
+    # encodes refused deep inside a table (not a TypeError at the top)
+    for poison in (Dm('NaN'), 1e39, 2**70, Dm(2**40), Dm('1E-300'),
+                   {'k' * 300: 1}, '\ud800'):
+        ops.append({'op': 'encode_table',
+                    'v': {'a': 1, 'outer': {'inner': [1, {'p': poison}]}}})
+    # decodes that fail 48 nesting levels down
+    for b, _ in list(faults.deep_fault_frames(rnd, 48))[::3]:
+        ops.append({'op': 'decode', 'data': b})
     kinds = ['encode_method', 'encode_header', 'encode_table', 'decode',
              'decode_bad', 'encode_bad']
     while len(ops) < n:
@@ -51,13 +81,19 @@ def make_pool(seed, n):
                 fr = wire.header_frame(rnd, allow_refuse=False,
                                        mask=rnd.getrandbits(14) | 4)
             inj = rnd.choice(['trunc', 'trunc', 'tag', 'utf8', 'field',
-                              'field', 'refuse'])
+                              'field', 'refuse', 'anyfield', 'index'])
             if inj == 'trunc':
                 muts = [b for b, _ in faults.inner_truncations(fr, rnd, 40)]
             elif inj == 'tag':
                 muts = [b for b, _ in faults.unknown_tags(fr, rnd)][:40]
             elif inj == 'utf8':
                 muts = [b for b, _ in faults.bad_utf8(fr, rnd)]
+            elif inj == 'anyfield':
+                muts = [b for b, _ in faults.field_rewrites(fr, rnd)]
+            elif inj == 'index':
+                muts = [b for b, lab in faults.field_rewrites(fr, rnd)
+                        if lab in ('field:method-index',
+                                   'field:frame-type')]
             elif inj == 'refuse':
                 muts = [bytes(wire.method_frame(
                     rnd, refspec.METHODS[rnd.choice(wire.TABLE_METHODS)],
